@@ -409,6 +409,45 @@ fn lex_number(b: &[u8], i: usize, luau: bool) -> usize {
 // literal values
 
 /// Decodes the bytes a quoted string body denotes (`body` excludes the quotes).
+/// does the body of a quoted string hold a `\x` that is not followed by two hex digits, or a `\u` that is not followed
+/// by `{hex}`? No dialect with these escapes gives such a literal a value (Lua 5.1 reads `\x` as `x`).
+pub fn has_malformed_escape(body: &[u8]) -> bool {
+    let mut i = 0;
+    while i < body.len() {
+        if body[i] != b'\\' {
+            i += 1;
+            continue;
+        }
+        match body.get(i + 1) {
+            Some(b'x') => {
+                let ok = body.get(i + 2).map_or(false, |c| c.is_ascii_hexdigit()) && body.get(i + 3).map_or(false, |c| c.is_ascii_hexdigit());
+                if !ok {
+                    return true;
+                }
+                i += 4;
+            }
+            Some(b'u') => {
+                let mut k = i + 2;
+                if body.get(k) != Some(&b'{') {
+                    return true;
+                }
+                k += 1;
+                let start = k;
+                while body.get(k).map_or(false, |c| c.is_ascii_hexdigit()) {
+                    k += 1;
+                }
+                if k == start || body.get(k) != Some(&b'}') {
+                    return true;
+                }
+                i = k + 1;
+            }
+            Some(_) => i += 2,
+            None => return false,
+        }
+    }
+    false
+}
+
 pub fn decode_quoted(body: &[u8]) -> Vec<u8> {
     let mut out = Vec::with_capacity(body.len());
     let mut i = 0;
